@@ -270,6 +270,72 @@ fn main() {
             });
         }
     }
+    // ratio windows: the decompressor's safety limits are stated as whole ratios (T:1); inputs are steered so that
+    // len / compressed lands just below, exactly on, inside the open window (T, T+1) and just above T for the limits the
+    // default policy uses. What the limit refuses above T is the known bomb-ratio finding; everything at or below it
+    // (the window included: the policy compares the truncated quotient) is the compressor's own output and must be accepted.
+    for &(m, mname) in LOSSLESS {
+        for (wi, &(t, fill, start)) in [(1000usize, 0u8, 60_000usize), (1000, 0x41, 300_000), (1000, 0, 1_000_000), (999, 0, 200_000), (500, 0x7F, 100_000), (2000, 0, 150_000)].iter().enumerate() {
+            let i = idx;
+            idx += 1;
+            if !run.want(i) {
+                continue;
+            }
+            if m == 0x08 && !thorough && wi >= 2 {
+                continue; // PKWare is slow
+            }
+            run.case(i, &format!("{mname}|ratio-window|T{t}|fill{fill:02x}|start{start}"), json!({"selector": mname, "threshold": t, "fill": fill, "start_len": start}), |c| {
+                // seven positions relative to the threshold: T*c-1, T*c, T*c+1, middle of the window, T*c+c-1, (T+1)*c, (T+1)*c+1
+                for pos in 0..7usize {
+                    // find a fixed point of n -> want(compressed(n)): secant steps while far away (for zlib / LZMA the
+                    // compressed size grows with n, so plain iteration contracts too slowly), plain iteration close by
+                    let mut n = start;
+                    let mut landed = false;
+                    let mut prev: Option<(i64, i64)> = None;
+                    for _ in 0..40 {
+                        let d = vec![fill; n];
+                        let out = match trap(|| compress(&d, m)) {
+                            Ok(Ok(o)) if o != d && o.len() > 1 => o,
+                            _ => break,
+                        };
+                        let cs = out.len() - 1;
+                        let want = match pos {
+                            0 => t * cs - 1,
+                            1 => t * cs,
+                            2 => t * cs + 1,
+                            3 => t * cs + cs / 2,
+                            4 => t * cs + cs - 1,
+                            5 => (t + 1) * cs,
+                            _ => (t + 1) * cs + 1,
+                        };
+                        if want == n {
+                            landed = true;
+                            break;
+                        }
+                        let g = want as i64 - n as i64;
+                        let next = match prev {
+                            Some((pn, pg)) if g.abs() > 4 * cs as i64 && g != pg => n as i64 - g * (n as i64 - pn) / (g - pg),
+                            _ => want as i64,
+                        };
+                        prev = Some((n as i64, g));
+                        if next < 1 || next > (1i64 << 23) {
+                            break;
+                        }
+                        n = next as usize;
+                    }
+                    if !landed {
+                        c.count("ratio_window_not_reached", 1);
+                        continue;
+                    }
+                    let d = vec![fill; n];
+                    c.count("triples", 1);
+                    c.count("ratio_window_inputs", 1);
+                    c.count(&format!("ratio_window_inputs|T{t}|pos{pos}"), 1);
+                    check_lossless(c, m, mname, "ratio-window", &d);
+                }
+            });
+        }
+    }
     // the top of the range in every tier: "up to the largest configurable sector or single-unit file" — units large enough
     // that a codec's internal block structure (bzip2's 100..900 kB blocks, LZMA dictionary, zlib window) is crossed
     for &(m, mname) in LOSSLESS {
